@@ -131,6 +131,10 @@ def cases(tier, seed):
         if d["dmm"] == 2 and n < 2:
             continue
         yield _mk(seed=seed, **d)
+    if tier == "quick":
+        # one loose-tolerance run with an SLM mask: exercises the recorded Krylov-accuracy finding in the quick tier as well
+        yield _mk("pair", "blackman", 0.0, 0, 1, "mock", False, 3, [1.0], 1e-6, None, seed)
+        yield _mk("pair", "blackman", 0.0, 0, 0, "mock", False, 3, [1.0], 1e-6, None, seed)
     # modulation block
     for shape in ["pair", "bent3"] if tier == "quick" else ["pair", "bent3", "rect4"]:
         for drive in ["const", "twophase", "blackman"] if tier == "quick" else ["const", "rampdet", "blackman", "twophase", "interp"]:
